@@ -303,12 +303,74 @@ pub fn check_tape(tape: &[u16], rc: &mut RCase) -> Result<(), Failure> {
     laws(&a, &b, &c, rc, true)
 }
 
+const EDGE: [i128; 11] = [i128::MIN, i128::MIN + 1, -(1 << 126) - 1, -(1 << 126), -1, 0, 1, 1 << 126, (1 << 126) + 1, i128::MAX - 1, i128::MAX];
+
+/// Amounts at the edges of the host integer: `a op b` over one class (the other operand holds that class, another
+/// one, or nothing), through the reducer. The exact result - computed with big integers - must come out when it
+/// fits i128, and an error when it does not: a result that is clamped or wrapped breaks (a - b) + b = a silently.
+pub fn edge_laws(i: u64, rc: &mut RCase) -> Result<(), Failure> {
+    use num_bigint::BigInt;
+    let n = EDGE.len() as u64;
+    let (x, y) = (EDGE[(i % n) as usize], EDGE[((i / n) % n) as usize]);
+    let shape = (i / n / n) % 3;
+    let op_sub = (i / n / n / 3) % 2 == 1;
+    let class_a = class_of(&POL_A, &NAME_T);
+    let class_b = if shape == 1 { AssetClass::Naked } else { class_a.clone() };
+    let a = if shape == 2 { CanonicalAssets::empty() } else { CanonicalAssets::from_class_and_amount(class_a.clone(), x) };
+    let b = CanonicalAssets::from_class_and_amount(class_b.clone(), y);
+    let rendered = || json!({"a": show(&a), "b": show(&b), "op": if op_sub { "sub" } else { "add" }});
+    // exact result per class
+    let mut want: BTreeMap<AssetClass, BigInt> = BTreeMap::new();
+    if shape != 2 {
+        want.insert(class_a.clone(), BigInt::from(x));
+    }
+    let e = want.entry(class_b.clone()).or_insert_with(|| BigInt::from(0));
+    if op_sub {
+        *e -= BigInt::from(y);
+    } else {
+        *e += BigInt::from(y);
+    }
+    let fits = want.values().all(|v| *v >= BigInt::from(i128::MIN) && *v <= BigInt::from(i128::MAX));
+    let ea = tir::Expression::Assets(a.clone().into());
+    let eb = tir::Expression::Assets(b.clone().into());
+    let op = if op_sub { tir::BuiltInOp::Sub(ea, eb) } else { tir::BuiltInOp::Add(ea, eb) };
+    let reduced = guard(|| tir::Expression::EvalBuiltIn(Box::new(op)).reduce());
+    let key = hash64(&(i, "edge"));
+    match reduced {
+        Err(p) => Err(Failure::new(format!("panic:{}", p.sig()), format!("{} ({}:{})", p.message, p.file, p.line), rendered())),
+        Ok(Err(_)) if !fits => {
+            rc.label("edge:overflow_refused");
+            rc.record(key, true, rendered);
+            Ok(())
+        }
+        Ok(Err(e)) => Err(Failure::new("edge_exact_result_refused", format!("the exact result fits i128 but reduce returned Err({:?})", e), rendered())),
+        Ok(Ok(tir::Expression::Assets(v))) => {
+            let got = m_of(&CanonicalAssets::from(v));
+            let want_i: Model = want.iter().filter(|(_, v)| **v != BigInt::from(0)).filter_map(|(k, v)| i128::try_from(v.clone()).ok().map(|v| (k.clone(), v))).collect();
+            if !fits {
+                return Err(Failure::new(
+                    "edge_overflow_not_refused",
+                    format!("the exact result {:?} leaves i128, reduce returned {:?}", want.values().map(|v| v.to_string()).collect::<Vec<_>>(), got),
+                    rendered(),
+                ));
+            }
+            if got != want_i {
+                return Err(Failure::new("edge_result_not_exact", format!("reduce returned {:?}, exact result {:?}", got, want_i), rendered()));
+            }
+            rc.label("edge:exact");
+            rc.record(key, true, rendered);
+            Ok(())
+        }
+        Ok(Ok(other)) => Err(Failure::new("edge_result_not_assets", format!("{:?}", other), rendered())),
+    }
+}
+
 pub fn run(tier: Tier, seed: u64) -> Report {
     let mut r = Report::new("C15", tier, seed);
     r.rule = "small scope: every triple (a,b,c) of values over {lovelace, token T, token U} with amounts in -2..2 \
               plus single-entry values with an explicit zero, each built through six constructor paths, all laws \
               checked per triple; random: up to 3 entries per operand, policies/names of length 0..40, amounts over \
-              +-2^124 and field boundaries. distinct = hash of the three operand specs; non-trivial = an operand with \
+              +-2^124 and field boundaries; edges_of_i128: every pair of eleven amounts at the edges of i128 x (same class, other class, empty left operand) x (add, sub) through the reducer - the exact result when it fits, an error when it does not. distinct = hash of the three operand specs; non-trivial = an operand with \
               >=2 classes, or an explicit zero entry, or a cancellation"
         .into();
     r.assumptions = vec![
@@ -324,6 +386,7 @@ pub fn run(tier: Tier, seed: u64) -> Report {
         let (bi, ci) = ((rest % n) as usize, (rest / n) as usize);
         laws(&vals[ai], &vals[bi], &vals[ci], rc, true)
     });
+    r.enumerate("edges_of_i128", (EDGE.len() * EDGE.len() * 3 * 2) as u64, &|i, rc| edge_laws(i, rc));
     r.exhaustive = false;
     r.explore("random", tier.pick(200_000, 5_000_000), 80, &|tape, rc| check_tape(tape, rc));
     r
@@ -332,6 +395,11 @@ pub fn run(tier: Tier, seed: u64) -> Report {
 pub fn replay(phase: &str, tape: &[u16], seed: u64) -> Report {
     let mut r = Report::new("C15", Tier::Quick, seed);
     r.strict = true;
+    if phase == "edges_of_i128" {
+        let i = ((tape[2] as u64) << 16) | tape[3] as u64;
+        r.enumerate(phase, 1, &|_, rc| edge_laws(i, rc));
+        return r;
+    }
     if phase == "small_scope" {
         let vals = small_values();
         let n = vals.len() as u64;
